@@ -77,7 +77,8 @@ fn run_tool(tool: &str, args: &[String], stdin_data: &[u8], how: OutArg, timeout
     let k = TOOL_CALLS.with(|c| { let v = c.get(); c.set(v + 1); v });
     if k % 3 != 2 { return run_capture(&bin(tool), args, stdin_data, timeout_s); }
     let dir = scratch();
-    let outp = format!("{}/out_{}.txt", dir, tool);
+    // the file name itself may contain characters that mean something inside the generated text
+    let outp = if k % 2 == 0 { format!("{}/out_{}.txt", dir, tool) } else { format!("{}/out \"{}\" & [x].txt", dir, tool) };
     if k % 9 == 2 || !std::path::Path::new(&outp).exists() {
         // a long earlier content
         let _ = std::fs::write(&outp, "\"stale\" v_0 & ".repeat(4000));
